@@ -27,6 +27,11 @@ CHECKS = {
    text="TLC checks RoundTripT, InOccupancy, TZeroOnlyAtStart, Monotone (walking T along the grid), RunsOK and ContIffOneRun for all paths of <= 3 (quick) / 4 (thorough) segments with lengths from a set containing 0 and 64; every case is realised as a real Path (uniform-speed Line/Quadratic/Cubic chains; mixed L/Q/C/A geometry for every joint pattern incl. the closing joint) and T2t, t2T, point, start/end, iscontinuous, isclosed, continuous_subpaths are compared with the model - exactly when all lengths are powers of two.",
    note="Trusted: TLC; exact comparison only on dyadic chains, otherwise 1e-9/1e-12 tolerances (either side of a boundary accepted). Effects one ulp below T=1 (a rounding effect outside the lattice) are not decided.",
    ref="4 (C05), 3.5"),
+ 'C06': dict(
+   technique="TLA+ exact model of the total variation of Bezier coordinate polynomials on dyadic sub-intervals (BezierBox.tla) and circular lattice arcs model-checked with TLC; the exact lengths replayed through length() with scipy quadrature and with the pure-Python fallback",
+   text="TLC checks TVAdditive, TVMonotone (along the walk), TVAtLeastChord and TVAtMostPolygon for every small-integer coordinate vector with rational critical points; the corresponding collinear quadratics / cubics along the direction (3,4) - monotone, fold-back, repeated control points, at scales 1e-3, 1, 1e4 - must give length(t0,t1) = 5 x TV on every dyadic sub-interval (1e-6 relative; 5e-3 where the speed vanishes inside, as the property allows), finite and non-negative; lines exact; circular lattice arcs r|delta| incl. additivity; generic lattice curves inside the rigorous [chords, control polygon] bracket of a depth-7 subdivision and additive; Path.length = sum of segments; all of it with _quad_available on and off.",
+   note="Trusted: TLC. NOT decided: the 1e-6 accuracy of length() for generic non-collinear curves and elliptical arcs (numeric accuracy proper; only the coarse rigorous bracket is checked).",
+   ref="4 (C06), 3.6"),
  'C07': dict(
    technique="TLA+ state machine of the bisection loop of inv_arclength (Bisect.tla) model-checked with TLC over all monotone length tables; every run of the real ilength recorded probe by probe and validated by Bisect_Trace.tla; exact inverses on constant-speed curves",
    text="TLC checks Terminates, FewSteps, Bracket, Post, Ends, Monotone and RunAgrees for every non-decreasing table on a 2^P grid, every target and tolerances below the table's resolution (the unreachable-tolerance regime); ~350 real runs (8 segment shapes and 3 paths x scales 1e-3..1e6 x 9 targets incl. 0, L and near-ends, scipy and no-scipy) are recorded by wrapping length() and must be accepted by the trace spec (each probe = midpoint of the dyadic bracket, or the float-resolution stall followed by the return); results are compared with s/L on constant-speed curves, checked for monotonicity, the post-condition and ValueError outside [0,L].",
